@@ -21,6 +21,8 @@ func progFromSource(feature, src string) (*Prog, error) {
 	p, err := progFromMain(feature, src)
 	if err == nil {
 		p.Extra = extra
+		dmain, ddirs := p.deployPackages()
+		p.Deploy = dmain || len(ddirs) > 0
 	}
 	return p, err
 }
@@ -189,7 +191,7 @@ func pruneMain(src string) string {
 				dd.names = []string{"method:" + strings.TrimPrefix(b.String(), "*") + "." + x.Name.Name}
 			} else {
 				dd.names = []string{x.Name.Name}
-				if x.Name.IsExported() || x.Name.Name == "init" {
+				if x.Name.IsExported() || x.Name.Name == "init" || x.Name.Name == "_deploy" {
 					dd.keep = true
 				}
 			}
